@@ -538,7 +538,109 @@ def run_sweep(case: dict[str, Any]) -> Outcome:
 # --------------------------------------------------------------------------- main
 
 
+# --------------------------------------------------------------------------- nonce freshness across forked workers
+
+
+def _envelope_nonces(r: tk.Resp) -> list[str]:
+    import base64
+
+    out = []
+    for tok in (r.cursor, r.call):
+        if tok is None:
+            continue
+        raw = None
+        for dec in (base64.b64decode, base64.urlsafe_b64decode):
+            try:
+                raw = dec(tok + b"=" * (-len(tok) % 4))
+                break
+            except Exception:
+                continue
+        if raw is not None and len(raw) >= 25 + 16:
+            out.append(raw[1:25].hex())  # envelope: version byte, 24-byte nonce, ciphertext || tag
+    return out
+
+
+def run_fork_nonces(case: dict[str, Any]) -> Outcome:
+    """Tokens sealed under one key by a pre-forked deployment (the package imported and the app built before the
+    workers fork — gunicorn --preload, uWSGI, multiprocessing 'fork'): every token must have its own AEAD nonce.  Two
+    tokens under one (key, nonce) XOR to the XOR of their plaintexts, i.e. token bytes reveal state plaintext without
+    the key.  Real entropy here (no controlled_env): with fresh 24-byte nonces a repeat has probability ~2^-190."""
+    import json as _json
+    import os
+    import select
+    import time as _time
+
+    out = Outcome()
+    method = case["method"]
+    w = tk.Worker(b"c12-fork-key-" + bytes([case["k"] % 251]) * 19, 3600, case["cache"], name="f")
+    seen: list[tuple[str, str]] = []  # (who, nonce)
+
+    def mint(who: str, n: int) -> list[tuple[str, str]]:
+        got = []
+        for i in range(n):
+            r = w.init(method, f"MKC12F{who}{i:02d}ZQ", 3, 0, None)
+            if not r.served:
+                raise tk.HarnessFault(f"init failed in {who}: {r.brief()}")
+            got += [(who, x) for x in _envelope_nonces(r)]
+        return got
+
+    seen += mint("parent-before", case["pre"])
+    for child in ("childA", "childB"):
+        rfd, wfd = os.pipe()
+        pid = os.fork()
+        if pid == 0:  # the worker process
+            code = 0
+            try:
+                os.close(rfd)
+                os.write(wfd, _json.dumps(mint(child, case["n"])).encode())
+            except BaseException:
+                code = 3
+            finally:
+                os._exit(code)
+        os.close(wfd)
+        buf = b""
+        deadline = _time.monotonic() + 15
+        while _time.monotonic() < deadline:
+            ready, _, _ = select.select([rfd], [], [], 0.5)
+            if ready:
+                chunk = os.read(rfd, 65536)
+                if not chunk:
+                    break
+                buf += chunk
+        os.close(rfd)
+        done, status = os.waitpid(pid, os.WNOHANG)
+        if done == 0:
+            os.kill(pid, 9)
+            os.waitpid(pid, 0)
+            out.label("forked_worker_hung")
+            out.skipped = True
+            return out
+        if status != 0 or not buf:
+            out.label("forked_worker_failed")
+            out.skipped = True
+            return out
+        seen += [tuple(x) for x in _json.loads(buf)]
+    seen += mint("parent-after", 1)
+    first: dict[str, str] = {}
+    for who, nonce in seen:
+        if nonce in first:
+            out.fail("nonce_reused/forked_workers" if first[nonce] != who else "nonce_reused/same_process",
+                     f"AEAD nonce {nonce} used for two tokens under one key (by {first[nonce]} and {who}); {len(seen)} tokens sealed")
+            break
+        first[nonce] = who
+    out.nontrivial = True
+    out.label(f"tokens={len(seen)}", f"method={method}")
+    return out
+
+
+fork_cases = st.fixed_dictionaries(
+    {"method": st.sampled_from(["p_c1", "x_c", "p_a1"]), "pre": st.sampled_from([0, 1, 1, 2, 3]), "n": st.sampled_from([1, 2, 3]),
+     "cache": st.sampled_from([0, 4]), "k": st.integers(0, 250)}
+)
+
+
 def main(chk: Check) -> None:
+    chk.explore("fork_nonces", fork_cases, run_fork_nonces, quick=25, thorough=400)
     chk.explore("attacks", cases, run_case, quick=495, thorough=12000)
     chk.enumerate("idpairs", idpair_cases(), run_case)
     chk.enumerate("ttlgrid", ttl_cases(), run_case)
